@@ -55,6 +55,8 @@ def points(tier):
             pts.append(["file", tier, i, case])
         # the same object after an in-memory edit of the index (first sample dropped from every curve)
         pts.append(["file", tier, i, "upper", "crop-top"])
+        # the curves re-ordered in memory with the same item objects (last curve moved to position 1)
+        pts.append(["file", tier, i, "upper", "reorder"])
         # every column kept as text (dtypes=False): numeric-looking strings must stay strings in a copy
         if name.startswith("gen:") or name.startswith("textcurve") or i % 7 == 0:
             pts.append(["file", tier, i, "upper", "dtypes-text"])
@@ -330,6 +332,12 @@ def check_point(pt, only=None):
                     raise ValueError("nothing to crop")
                 for c in las.curves:
                     c.data = c.data[1:]
+            if edit == "reorder":
+                if len(las.curves) < 3:
+                    raise ValueError("nothing to re-order")
+                item = list(las.curves)[-1]
+                las.delete_curve(ix=len(las.curves) - 1)
+                las.insert_curve_item(1, item)
             return las
 
         v, nt, oc, counters, evals = check_las(make, name + "|" + case + ("|" + edit if edit else ""), pt)
